@@ -315,7 +315,11 @@ class Ctx:
         """Regenerate tables, build the cone of theories/Properties/<prop>.v, re-run coqc on
         the property file to collect Print Assumptions. Returns True when all obligations check."""
         prop_file = prop_file or f"theories/Properties/{self.prop}.v"
-        with BuildLock():
+        # The lock is held until finish(): Gen/Tables.v(o) is shared by every check, and the
+        # case files evaluated later must see the tables of THIS run's repository.
+        self._lock = BuildLock()
+        self._lock.__enter__()
+        if True:
             rc, out = regen_tables()
             self.extra["tables"] = out
             if rc != 0:
@@ -388,7 +392,12 @@ class Ctx:
                   {"kind": "broken-proof", "broken": self.broken, "search": search_note}, concrete=False)
 
     # ---- finish
+    _lock = None
+
     def finish(self):
+        if self._lock is not None:
+            self._lock.__exit__()
+            self._lock = None
         wall = time.time() - self.t0
         os.makedirs(EVIDENCE, exist_ok=True)
         os.makedirs(REPLAYS, exist_ok=True)
